@@ -567,7 +567,12 @@ class DefaultParser(Parser):
                 break
             digits.append(context.value(cur))
             context.advance()
-        return int(''.join(map(str, digits)) or 0)
+        try:
+            return int(''.join(map(str, digits)) or 0)
+        except ValueError:
+            # e.g. more digits than the interpreter converts (sys.get_int_max_str_digits)
+            raise ParseError(
+                f'Invalid subscript ending at position {context.pos}.') from None
 
     def _read_coords(self, context: ParseContext, /) -> BiCoords:
         """Read (index, subscript) coords starting from the current character,
